@@ -3,7 +3,7 @@
     first time test executed at or after tStart + hard stops the search. *)
 From Coq Require Import ZArith Bool List Lia Floats.
 From Texel Require Import gen.TimeParams TimeMgmt.TimeMgmt TimeMgmt.TimeSpec TimeMgmt.FloatFacts
-  TimeMgmt.TimeProofs.
+  TimeMgmt.HardOfProofs TimeMgmt.TimeProofs.
 Import ListNotations.
 Local Open Scope Z_scope.
 
@@ -116,7 +116,9 @@ Proof. intros. unfold limits_ok, search_timeLimit. cbn. lia. Qed.
 Inductive HfStep : float -> float -> Prop :=
 | HfFailHigh : forall hf, HfStep hf (hf_failHigh hf)
 | HfFailLow : forall hf, HfStep hf (hf_failLow hf)
-| HfIterEnd : forall hf hard, hf_ok hard = true -> HfStep hf (hf_iterEnd hf hard).
+| HfIterEnd : forall hf firstMoveNodes totalNodes,     (* any node counts, even 0/0 *)
+    HfStep hf (hf_iterEnd hf (hardOf (nodeFraction firstMoveNodes totalNodes)))
+| HfIterEndAny : forall hf hard, hf_ok hard = true -> HfStep hf (hf_iterEnd hf hard).
 
 Inductive HfReach : float -> Prop :=
 | HfInit : HfReach hf_init
@@ -129,6 +131,7 @@ Proof.
   - destruct Hs.
     + apply hf_ok_fmax; [exact IH | apply hf_ok_consts].
     + apply hf_ok_fmax; [exact IH | apply hf_ok_consts].
+    + apply hf_ok_iterEnd; [exact IH | apply hardOf_range].
     + now apply hf_ok_iterEnd.
 Qed.
 
